@@ -30,8 +30,9 @@ for it in range(R.n(30, 500)):
     worst, ts_ok = 0.0, True
     for f, g, tb in zip(frames, copies, ts_before):
         off = f.t_start - frames[0].t_start
-        g.ts = g.ts + off
-        g.add_signal(path, tprof, fp, **kw)
+        # independent reference: an untouched copy with its own time axis starting at 0, injected with the time-translated callables
+        # (no shifted axis involved on the reference side)
+        g.add_signal(lambda tt, off=off: path(tt + off), lambda tt, off=off: tprof(tt + off), fp, **kw)
         worst = max(worst, float(np.max(np.abs(f.data - g.data))))
         ts_ok = ts_ok and np.allclose(f.ts, tb, rtol=0, atol=1e-9)
     R.check('injection/equals-single-frame-injection-at-shifted-times', c, worst < 1e-9, worst)
